@@ -1,7 +1,12 @@
-import JjModel.Lemmas.RevsetSet
+import JjModel.Lemmas.RevsetResolve
 /-!
   C19 — revset evaluation matches set semantics: theorems about the model
-  `JjModel.Revset` (`lean/JjModel/Model/Revset.lean`, the definitions the driver runs).
+  `JjModel.Revset` (`lean/JjModel/Model/Revset.lean`: the definitions the driver runs;
+  `lean/JjModel/Model/RevsetSem.lean`: the set-theoretic semantics `denote`).
+
+  A revset result is a list of index positions; `Desc l` (strictly descending) says "newest
+  first, no duplicates".  Together with a membership characterisation it determines the list
+  (`desc_ext`), so every `…_spec` below pins the model's output completely.
 -/
 namespace JjModel.C19
 open JjModel.Revset
@@ -30,9 +35,158 @@ theorem commits_spec (l : List Nat) :
     Desc (sortDedupDesc l) ∧ ∀ p, p ∈ sortDedupDesc l ↔ p ∈ l :=
   ⟨desc_sortDedupDesc l, mem_sortDedupDesc l⟩
 
+/-- a strictly descending list is determined by its members: "the set, newest first" is unique -/
+theorem result_unique {l₁ l₂ : List Nat} (h₁ : Desc l₁) (h₂ : Desc l₂) (h : ∀ p, p ∈ l₁ ↔ p ∈ l₂) :
+    l₁ = l₂ := desc_ext h₁ h₂ h
+
 example : unionDesc [5, 3, 1] [4, 3, 0] = [5, 4, 3, 1, 0] := by simp [unionDesc]
 example : interDesc [5, 3, 1] [4, 3, 1, 0] = [3, 1] := by simp [interDesc]
 example : diffDesc [5, 3, 1] [4, 3, 0] = [5, 1] := by simp [diffDesc]
 example : sortDedupDesc [1, 4, 1, 3] = [4, 3, 1] := by simp [sortDedupDesc, insertDesc]
+
+/-! ## walks -/
+
+/-- `RevWalkImpl` (any queue state, any `min_pos`): the scan emits exactly the positions
+`≥ min_pos` reachable from a wanted item along the (first-)parent edges and not reachable from
+an unwanted item along all parent edges — in strictly descending order. -/
+theorem walk_spec {adj : Nat → List Nat} (ht : Topo adj) (fp : Bool) (m n : Nat) (w u : List Nat) :
+    Desc (walkAnc adj fp m n w u) ∧
+      ∀ p, p ∈ walkAnc adj fp m n w u ↔
+        m ≤ p ∧ p < n ∧ WantedReach adj fp n w p ∧ ¬ UnwantedReach adj n u p :=
+  ⟨desc_walkAnc ht fp m n w u, mem_walkAnc ht fp m n w u⟩
+
+/-- `RevWalkGenerationRangeImpl` (any queue state): the scan with *merged* item ranges and
+saturating `end + 1` emits exactly the positions that some pending item reaches by a path whose
+length passes that item's own range test — merging overlapping ranges (`try_merge_end`) and
+saturation never change the answer. -/
+theorem walk_generation_spec {adj : Nat → List Nat} (ht : Topo adj) (fp : Bool) {E : Nat}
+    (hE : E ≤ U32MAX) (n : Nat) (w : List (Nat × GRange)) (u : List Nat) :
+    Desc (walkGen adj fp E n w u) ∧
+      ∀ p, p ∈ walkGen adj fp E n w u ↔
+        p < n ∧ WantedGen adj fp E n w p ∧ ¬ UnwantedReach adj n u p :=
+  ⟨desc_walkGen ht fp hE n w u, mem_walkGen ht fp hE n w u⟩
+
+/-- `try_merge_end` is exact: a merged range passes the shifted test iff one of the two does. -/
+theorem merge_exact {a b : GRange} (hs : a.s ≤ b.s) (hm : b.s ≤ a.e) (E t : Nat) :
+    (GRange.mk a.s (max a.e b.e)).T E t ↔ a.T E t ∨ b.T E t := merge_T hs hm E t
+
+/-- `Ancestors{heads, generation, parents_range}` and `Range{roots, heads, …}` arms
+(`unwanted = []` for `Ancestors`): ancestors of the heads at a generation inside the range
+(first-parent only when `fp`), minus every ancestor of the roots. -/
+theorem ancestors_spec (g : Graph) (hw : g.WF) (fp : Bool) (lo : Nat) (hi : Option Nat)
+    (heads unwanted : List Nat) (hh : ∀ h ∈ heads, h < g.size) (hu : ∀ r ∈ unwanted, r < g.size) :
+    Desc (ancestorsWalk g fp lo hi heads unwanted) ∧
+      ∀ p, p ∈ ancestorsWalk g fp lo hi heads unwanted ↔
+        (∃ h ∈ heads, ∃ k, inGen lo hi k ∧ PathK (g.adj fp) k h p) ∧
+          ¬ ∃ r ∈ unwanted, Path g.par r p :=
+  ⟨desc_ancestorsWalk g hw fp lo hi heads unwanted,
+   mem_ancestorsWalk g hw fp lo hi heads unwanted hh hu⟩
+
+/-- `DagRange` arm, full generation range (`RevWalkDescendantsImpl`) -/
+theorem descendants_spec (g : Graph) (hw : g.WF) (heads roots : List Nat)
+    (hh : ∀ h ∈ heads, h < g.size) :
+    Desc (descendantsOf g heads roots) ∧
+      ∀ p, p ∈ descendantsOf g heads roots ↔
+        (∃ h ∈ heads, Path g.par h p) ∧ ∃ r ∈ roots, Path g.par p r :=
+  ⟨desc_descendantsOf g hw heads roots, mem_descendantsOf g hw heads roots hh⟩
+
+/-- `DagRange` arm, bounded generation range (`descendants_filtered_by_generation`: the
+generation walk over the reversed children index) -/
+theorem descendants_range_spec (g : Graph) (hw : g.WF) (heads roots : List Nat)
+    (hh : ∀ h ∈ heads, h < g.size) (lo : Nat) (hi : Option Nat) :
+    Desc (descendantsGen g lo hi heads roots) ∧
+      ∀ p, p ∈ descendantsGen g lo hi heads roots ↔
+        (∃ h ∈ heads, Path g.par h p) ∧ ∃ r ∈ roots, ∃ k, inGen lo hi k ∧ PathK g.par k p r :=
+  ⟨desc_descendantsGen g hw heads roots hh lo hi, mem_descendantsGen g hw heads roots hh lo hi⟩
+
+/-- `heads_pos`, including the pruning by generation number -/
+theorem heads_spec (g : Graph) (hw : g.WF) (cands : List Nat) (hd : Desc cands)
+    (hc : ∀ c ∈ cands, c < g.size) :
+    Desc (headsPos g cands) ∧ ∀ p, p ∈ headsPos g cands ↔ HeadsOf g (· ∈ cands) p :=
+  ⟨desc_headsPos g hw.topo cands hd, mem_headsPos g hw.topo cands hc⟩
+
+/-- `Roots` arm -/
+theorem roots_spec (g : Graph) (hw : g.WF) (xs : List Nat) (hd : Desc xs)
+    (hx : ∀ x ∈ xs, x < g.size) :
+    Desc (rootsOf g xs) ∧ ∀ p, p ∈ rootsOf g xs ↔ RootsOf g (· ∈ xs) p :=
+  ⟨desc_rootsOf g xs hd, mem_rootsOf g hw xs hx⟩
+
+/-! ## the engine against the plan semantics, the plan against the expression semantics -/
+
+/-- every covered `ResolvedExpression` evaluates to the strictly descending list of the
+positions it denotes -/
+theorem engine_sound (g : Graph) (hw : g.WF) (r : RExpr) (hok : OkR g r) :
+    Desc (eval g r) ∧ ∀ p, p ∈ eval g r ↔ denoteR g r p :=
+  ⟨(eval_spec g hw r hok).desc, (eval_spec g hw r hok).mem⟩
+
+/-- `resolve_visibility` preserves the meaning (with `all()` = `::(visible heads ∪ referenced)`) -/
+theorem resolve_visibility_sound (g : Graph) (refs : List Nat) (e : Expr) (hok : OkE g e) (p : Nat) :
+    denoteR g (resolve g refs e) p ↔ denote g (refs ++ g.heads) e p :=
+  resolve_spec g refs e hok p
+
+/-- **Main theorem.**  For every well-formed graph and every covered expression, the model's
+evaluation (`evaluate_unoptimized`: collect referenced commits, resolve visibility, run the
+engine) yields exactly the set the expression denotes, newest first, without duplicates. -/
+theorem eval_sound (g : Graph) (hw : g.WF) (e : Expr) (hok : OkE g e) :
+    Desc (evalTop g e) ∧ ∀ p, p ∈ evalTop g e ↔ denoteTop g e p := by
+  have hrefs := refsOf_lt g e hok
+  have hR := resolve_ok g hw (refsOf e) hrefs e hok
+  have hs := eval_spec g hw _ hR
+  exact ⟨hs.desc, fun p => (hs.mem p).trans (resolve_spec g _ e hok p)⟩
+
+/-- two covered expressions that denote the same set evaluate to the same list -/
+theorem eval_eq_of_denote_eq (g : Graph) (hw : g.WF) (e₁ e₂ : Expr) (h₁ : OkE g e₁) (h₂ : OkE g e₂)
+    (h : ∀ p, denoteTop g e₁ p ↔ denoteTop g e₂ p) : evalTop g e₁ = evalTop g e₂ := by
+  have s₁ := eval_sound g hw e₁ h₁
+  have s₂ := eval_sound g hw e₂ h₂
+  exact desc_ext s₁.1 s₂.1 fun p => (s₁.2 p).trans ((h p).trans (s₂.2 p).symm)
+
+/-! ## non-vacuity: a concrete graph with a merge and a hidden commit -/
+
+/-- executable check of `Graph.WF` (for the examples) -/
+def topoOk : List (List Nat) → Nat → Bool
+  | [], _ => true
+  | ps :: rest, i => ps.all (· < i) && topoOk rest (i + 1)
+
+theorem topoOk_sound : ∀ (l : List (List Nat)) (i : Nat), topoOk l i = true →
+    ∀ j q, q ∈ l.getD j [] → q < i + j := by
+  intro l
+  induction l with
+  | nil => intro i _ j q hq; simp at hq
+  | cons ps rest ih =>
+    intro i h j q hq
+    simp only [topoOk, Bool.and_eq_true, List.all_eq_true, decide_eq_true_eq] at h
+    cases j with
+    | zero => simp at hq; exact h.1 q hq
+    | succ j =>
+      simp only [List.getD_cons_succ] at hq
+      have := ih (i + 1) h.2 j q hq
+      omega
+
+theorem wf_of_check (g : Graph) (h1 : topoOk g.parents 0 = true)
+    (h2 : g.heads.all (· < g.size) = true) (h3 : 0 < g.size) (h4 : g.size ≤ U32MAX) : g.WF where
+  topo := by
+    intro p q hq
+    have := topoOk_sound g.parents 0 h1 p q hq
+    omega
+  heads_lt := by
+    intro h hh
+    simp only [List.all_eq_true, decide_eq_true_eq] at h2
+    exact h2 h hh
+  size_pos := h3
+  size_le := h4
+
+/-- root 0; 1,2 on the root; 3 merges 1 and 2; 4 on 3; 5 on 2 is hidden (visible head: 4) -/
+def exG : Graph := { parents := [[], [0], [0], [1, 2], [3], [2]], heads := [4], ts := [0, 3, 1, 2, 2, 5] }
+
+theorem exG_wf : exG.WF := wf_of_check exG (by decide) (by decide) (by decide) (by decide)
+
+/-- `~(::2)` on `exG`: covered, and the theorem applies -/
+example : OkE exG (.notIn (.ancestors (.commits [2]) 0 none false)) := by simp [OkE, exG, Graph.size]
+
+example :
+    let e := Expr.notIn (.ancestors (.commits [2]) 0 none false)
+    Desc (evalTop exG e) ∧ ∀ p, p ∈ evalTop exG e ↔ denoteTop exG e p :=
+  eval_sound exG exG_wf _ (by simp [OkE, exG, Graph.size])
 
 end JjModel.C19
